@@ -9,8 +9,16 @@ import (
 // Scan breaks a string into a sequence of Tokens.
 func Scan(data string, loc SourceLoc, delims []string) (tokens []Token) {
 	// Apply defaults
+	defaults := []string{"{{", "}}", "{%", "%}"}
 	if len(delims) != 4 {
-		delims = []string{"{{", "}}", "{%", "%}"}
+		delims = defaults
+	}
+	// an empty delimiter selects the default for that position
+	for i, d := range delims {
+		if d == "" {
+			delims = append([]string{}, delims...)
+			delims[i] = defaults[i]
+		}
 	}
 	tokenMatcher := formTokenMatcher(delims)
 
@@ -26,7 +34,7 @@ func Scan(data string, loc SourceLoc, delims []string) (tokens []Token) {
 		source := data[ts:te]
 		switch {
 		case data[ts:ts+len(delims[0])] == delims[0]:
-			if source[2] == '-' {
+			if source[len(delims[0])] == '-' {
 				tokens = append(tokens, Token{
 					Type: TrimLeftTokenType,
 				})
@@ -37,13 +45,13 @@ func Scan(data string, loc SourceLoc, delims []string) (tokens []Token) {
 				Source:    source,
 				Args:      data[m[2]:m[3]],
 			})
-			if source[len(source)-3] == '-' {
+			if source[len(source)-len(delims[1])-1] == '-' {
 				tokens = append(tokens, Token{
 					Type: TrimRightTokenType,
 				})
 			}
 		case data[ts:ts+len(delims[2])] == delims[2]:
-			if source[2] == '-' {
+			if source[len(delims[2])] == '-' {
 				tokens = append(tokens, Token{
 					Type: TrimLeftTokenType,
 				})
@@ -58,7 +66,7 @@ func Scan(data string, loc SourceLoc, delims []string) (tokens []Token) {
 				tok.Args = data[m[6]:m[7]]
 			}
 			tokens = append(tokens, tok)
-			if source[len(source)-3] == '-' {
+			if source[len(source)-len(delims[3])-1] == '-' {
 				tokens = append(tokens, Token{
 					Type: TrimRightTokenType,
 				})
@@ -81,9 +89,9 @@ func formTokenMatcher(delims []string) *regexp.Regexp {
 	// [^T]|T[^A]|TA[^G]|TAG[^!]|TAG![^R]|TAG!R[^I]|TAG!RI[^G]|TAG!RIG[^H]|TAG!RIGH[^T]
 	exclusion := make([]string, 0, len(delims[3]))
 	for idx, val := range delims[3] {
-		exclusion = append(exclusion, "[^"+string(val)+"]")
+		exclusion = append(exclusion, "[^"+regexp.QuoteMeta(string(val))+"]")
 		if idx > 0 {
-			exclusion[idx] = delims[3][0:idx] + exclusion[idx]
+			exclusion[idx] = regexp.QuoteMeta(delims[3][0:idx]) + exclusion[idx]
 		}
 	}
 
